@@ -37,13 +37,14 @@ def indexOf (d : Bytes) : Bytes → Option Nat
 
 structure Reader where
   chunks : List Bytes     -- what successive Read calls will hand out (a chunk larger than the room is served in pieces)
-  eofd : Bool             -- true: the last bytes are returned together with io.EOF
+  eofd : Bool             -- true: the last bytes are returned together with the final error
+  endErr : String := "eof" -- the error the reader ends with: io.EOF ("eof") or a connection error ("io")
   deriving Repr
 
 /-- `Read(p)` with `len(p) = room > 0`: (bytes delivered, err != nil, reader afterwards) -/
 def Reader.read (r : Reader) (room : Nat) : Bytes × Bool × Reader :=
   match r.chunks with
-  | [] => ([], true, r)                                    -- (0, io.EOF)
+  | [] => ([], true, r)                                    -- (0, r.endErr)
   | c :: cs =>
     let k := min c.length room
     let rest := if k = c.length then cs else c.drop k :: cs
@@ -143,7 +144,7 @@ def findIdx (offset : Nat) (delim : Bytes) (p : P) : Res (Nat × P) :=
   if offset > p.buf.length then
     match h : readMore p with
     | .ok (n, e, p') =>
-      if hne : n = 0 ∧ e = true then .err "eof" else findIdx offset delim p'
+      if hne : n = 0 ∧ e = true then .err p.rd.endErr else findIdx offset delim p'
     | .err x => .err x
     | .fault w => .fault w
   else
@@ -152,7 +153,7 @@ def findIdx (offset : Nat) (delim : Bytes) (p : P) : Res (Nat × P) :=
     | none =>
       match h : readMore p with
       | .ok (n, e, p') =>
-        if hne : n = 0 ∧ e = true then .err "eof" else findIdx offset delim p'
+        if hne : n = 0 ∧ e = true then .err p.rd.endErr else findIdx offset delim p'
       | .err x => .err x
       | .fault w => .fault w
 termination_by p.rd.weight
@@ -343,9 +344,13 @@ def runG (guarded : Bool) (p : P) : Out :=
 termination_by p.weight
 decreasing_by exact readMessageG_weight h
 
-/-- the frames (and the terminal error) the parser extracts from a reader that serves `cs` -/
+/-- the frames (and the terminal error) the parser extracts from a reader -/
+def framesReadG (guarded : Bool) (rd : Reader) : Out := runG guarded (P.init rd)
+def framesRead := framesReadG true
+
+/-- … from a reader that serves `cs` and ends with io.EOF -/
 def framesChunkedG (guarded : Bool) (eofd : Bool) (cs : List Bytes) : Out :=
-  runG guarded (P.init { chunks := cs, eofd := eofd })
+  framesReadG guarded { chunks := cs, eofd := eofd }
 
 def framesChunked := framesChunkedG true
 def framesChunkedOrig := framesChunkedG false
